@@ -5,6 +5,7 @@ import (
 	"fmt"
 	"os"
 	"strconv"
+	"strings"
 	"syscall"
 	"testing"
 
@@ -60,6 +61,10 @@ func (ev *evaluator) worker() (*workerHandle, error) {
 	return ev.w, nil
 }
 
+func isToolingCrash(v Verdict) bool {
+	return v.Kind == "crash" && (strings.Contains(v.Reason, "multiple synctest bubbles") || strings.Contains(v.Stderr, "multiple synctest bubbles"))
+}
+
 func hasPar(c *Case) bool {
 	for i := range c.Ops {
 		if c.Ops[i].Par {
@@ -85,6 +90,19 @@ func (ev *evaluator) eval(c *Case, trace bool) Verdict {
 				return Verdict{Kind: "inconclusive", Reason: "cannot start worker: " + err.Error()}
 			}
 			v, _ = w.run(c, trace)
+			// A real-time hang (or a synctest runtime artefact) that does not
+			// repeat on a fresh worker is a scheduling/tooling glitch, not a
+			// property of the case: retry before believing it.
+			for attempt := 0; attempt < 2 && (v.Kind == "hang" || isToolingCrash(v)); attempt++ {
+				if ev.stats != nil {
+					ev.stats.Labels["retried:"+v.Kind]++
+				}
+				w, err = ev.worker()
+				if err != nil {
+					break
+				}
+				v, _ = w.run(c, trace)
+			}
 		}
 		if ev.stats != nil {
 			ev.stats.Executions++
